@@ -286,6 +286,7 @@ def run(case):
             mvcc.check_read_current(w, log)
             mvcc.check_snapshots(w, log)
             mvcc.check_pokers(w, log, w.poker_results)
+            mvcc.check_serials(w, log)
             if not s.deadlock and not s.capped:
                 mvcc.check_final_state(w, log)
                 # every connection can commit afterwards (stale copies were
